@@ -475,7 +475,58 @@ def check_caps(case, rng):
     return fails, stats
 
 
-CHECKS = {"caps": check_caps, "exact": check_exact, "small": check_small, "chain": check_chain, "aux": check_aux, "coeff": check_coeff, "run": check_run}
+def check_scale(case, rng):
+    """homogeneity: evolve(c * psi) = c * evolve(psi) = c * exp(..) psi in RELATIVE terms, whatever the norm of the state and
+    wherever it sits (in the tensors via scale(c, inplace=True), or in coeff); normalize=False; full bond dimension.
+    Steps: a large one (step * ||H|| = xbig, local problems need more than 7 Krylov vectors) and a small one."""
+    fails, stats = [], {"rel": {}, "hom": {}}
+    bt, order, ttno, H, base = setup(case, rng, 256)
+    hn = float(np.linalg.norm(H, 2))
+    steps = [float(case["xbig"]) / hn, float(case["small"])] if case.get("xbig") else [float(case["small"])]
+    stats["hn"], stats["steps"] = hn, steps
+    for method in case["methods"]:
+        for imag in case["imag"]:
+            for step in (steps if method not in ("pc",) else steps[-1:]):
+                tau = tau_of(step, imag)
+                U = scipy.linalg.expm((-step if imag else -1j * step) * H)
+                v1 = rel1 = None
+                for where, c in case["scales"]:
+                    c = complex(c[0], c[1]) if c[1] else float(c[0])
+                    if method == "vmf" and where == "tensor" and abs(c) < 1e-3:
+                        continue        # documented residual: reg_epsilon and ivp_atol of the mean-field scheme are absolute
+                    t = L.config(base.copy(), method)
+                    if where == "tensor":
+                        t.scale(c, inplace=True)
+                    else:
+                        t.coeff = c
+                    psi0 = L.dense(t, order)
+                    try:
+                        new = t.evolve(ttno, tau, normalize=False)
+                    except Exception as e:
+                        import traceback
+                        fails.append({"what": "evolve raised on a rescaled state", "method": method, "imag": imag, "step": step,
+                                      "where": where, "scale": repr(c), "error": repr(e), "tb": traceback.format_exc()[-600:]})
+                        continue
+                    v = L.dense(new, order)
+                    ref = U @ psi0
+                    rel = float(np.linalg.norm(v - ref) / np.linalg.norm(ref))
+                    key = "%s/%s/%.3g" % (method, "imag" if imag else "real", step)
+                    stats["rel"].setdefault(key, []).append(rel)
+                    if v1 is None:            # the first entry of case["scales"] is c = 1
+                        v1, rel1 = v / c, rel
+                        continue
+                    hom = float(np.linalg.norm(v / c - v1) / np.linalg.norm(v1))
+                    stats["hom"][key] = max(stats["hom"].get(key, 0.0), hom)
+                    # purely relative bounds (no absolute floor): the same accuracy as at c = 1, and the same result up to c
+                    if hom > 1e-7 or rel > 2.0 * rel1 + 1e-7:
+                        fails.append({"what": "propagation is not homogeneous in the norm of the state", "method": method, "imag": imag,
+                                      "step": step, "step_times_normH": step * hn, "where": where, "scale": repr(c),
+                                      "rel_err_vs_dense": rel, "rel_err_at_scale_1": rel1, "rel_dev_from_scaled_result": hom})
+    stats["bond_dims"] = [int(x) for x in base.bond_dims]
+    return fails, stats
+
+
+CHECKS = {"scale": check_scale, "caps": check_caps, "exact": check_exact, "small": check_small, "chain": check_chain, "aux": check_aux, "coeff": check_coeff, "run": check_run}
 
 
 def check_case(case, seed=0):
